@@ -144,6 +144,9 @@ async fn stall(a: &[String]) -> Vec<String> {
     // optional: datagrams the peer sends first and the application never asks for (it keeps
     // accepting streams but does not call `receive_datagram`)
     let unread_dgrams = arg(a, 5).parse::<usize>().unwrap_or(0).min(64);
+    // optional: the stalled streams stay stalled for this long before the peer opens one more
+    // healthy stream of each kind and only then closes
+    let hold_ms = arg(a, 6).parse::<u64>().unwrap_or(0).min(60_000);
 
     let rt = match TestRt::new(arg(a, 0)) {
         Ok(rt) => rt,
@@ -165,7 +168,7 @@ async fn stall(a: &[String]) -> Vec<String> {
             Ok(c) => c,
             Err(e) => return Err(format!("session:{e}")),
         };
-        let deadline = Instant::now() + Duration::from_millis(STALL_APP_MS);
+        let deadline = Instant::now() + Duration::from_millis(STALL_APP_MS + hold_ms);
         let read_deadline = deadline + Duration::from_millis(500);
 
         let (c, s) = (conn.clone(), sh.clone());
@@ -382,6 +385,32 @@ async fn stall(a: &[String]) -> Vec<String> {
             }
             tokio::time::sleep(Duration::from_millis(10)).await;
         }
+        if hold_ms > 0 {
+            tokio::time::sleep(Duration::from_millis(hold_ms)).await;
+            let mut b = wire::wt_uni_preamble(0);
+            b.extend(stall_uni_payload(9));
+            let mut su = client.open_uni().await?;
+            raw::write_pieces(&mut su, &[b], 0).await?;
+            su.finish().map_err(|_| "finish:closed".to_string())?;
+            keep.push(Box::new(su));
+            let mut b = wire::wt_bi_preamble(0);
+            b.extend(stall_bi_payload(9));
+            let (mut sb, rb) = client.open_bi().await?;
+            raw::write_pieces(&mut sb, &[b], 0).await?;
+            sb.finish().map_err(|_| "finish:closed".to_string())?;
+            keep.push(Box::new(sb));
+            keep.push(Box::new(rb));
+            let t0 = Instant::now();
+            while t0.elapsed() < Duration::from_millis(STALL_SETTLE_MS) {
+                {
+                    let s = lock(&sh);
+                    if s.uni.contains(&stall_uni_payload(9)) && s.bi.contains(&stall_bi_payload(9)) {
+                        break;
+                    }
+                }
+                tokio::time::sleep(Duration::from_millis(10)).await;
+            }
+        }
         if let Some((s, _)) = client.req.as_mut() {
             s.finish().map_err(|_| "close:closed".to_string())?;
         }
@@ -433,6 +462,11 @@ async fn stall(a: &[String]) -> Vec<String> {
         format!("close={close}"),
         format!("extra={extra}"),
     ];
+    if hold_ms > 0 {
+        let s = lock(&shared);
+        let n = usize::from(s.uni.contains(&stall_uni_payload(9))) + usize::from(s.bi.contains(&stall_bi_payload(9)));
+        obs.push(format!("after_hold={n}/2"));
+    }
     if let Some(e) = err {
         obs.push(format!("err={e}"));
     }
@@ -1258,6 +1292,14 @@ fn gen_c07(thorough: bool, rng: &mut Rng, emit: &mut dyn FnMut(&str, Vec<String>
                     }
                 }
             }
+            if _rep == 0 {
+                for pos in ["nobyte", "partial", "full_silence", "unread"] {
+                    for hold in [3000u64, 6500, 11_000, 21_000] {
+                        let order = *rng.pick(&orders);
+                        emit("stall", vec![s(*rng.pick(&RTS)), s(kind), s(rng.range(1, 3)), s(pos), s(order), s(0), s(hold)]);
+                    }
+                }
+            }
             for k in [0usize, 1, 2, 4] {
                 for pos in ["nobyte", "partial", "full_silence", "unread"] {
                     let nd = [1usize, 2, 3, 9, 40][rng.below(5) as usize];
@@ -1301,6 +1343,13 @@ fn gen_c07(thorough: bool, rng: &mut Rng, emit: &mut dyn FnMut(&str, Vec<String>
                 rot += 1;
                 put(emit, vec![s(RTS[rot % 2]), s(kind), s(k), s(pos), s(orders[rot % 3]), s(nd)]);
             }
+        }
+    }
+    // streams that stay stalled for long: later streams and the close are still fine
+    for kind in kinds {
+        for (pos, hold) in [("nobyte", 1500u64), ("partial", 6500), ("full_silence", 6500)] {
+            rot += 1;
+            put(emit, vec![s(RTS[rot % 2]), s(kind), s(1), s(pos), s(orders[rot % 3]), s(0), s(hold)]);
         }
     }
     // around the capacities of the hand-off queues (4 uni, 1 bidi): every order
